@@ -31,7 +31,7 @@ def build():
     A(Op("dspr", lambda x, a: x.spec.dspr()))
     A(Op("swe", lambda x, a: x.spec.swe(), needs_dir=False))
     A(Op("sw", lambda x, a: x.spec.sw(), needs_dir=False))
-    A(Op("gw", lambda x, a: x.spec.gw(), needs_dir=False, scale="sqrt"))
+    A(Op("gw", lambda x, a: x.spec.gw(), needs_dir=False, scale="none"))
     A(Op("goda", lambda x, a: x.spec.goda(), needs_dir=False))
     A(Op("uss", lambda x, a: x.spec.uss(), scale="lin"))
     A(Op("uss_x", lambda x, a: x.spec.uss_x(depth=a["depth0"]), scale="lin", rot="skip"))
